@@ -85,6 +85,10 @@ func c05RunX(rc *simrt.RunCtx, faults, inject bool) {
 			return 0
 		}
 	}
+	if rc.Pick(4, "wl.small-read-buffers") == 0 {
+		// read buffers below the 32 KiB split of NoiseGrpcConn.Read
+		st.readSize = func(string) int { return c15ReadSize(rc) }
+	}
 	rc.Knob("mode", mode)
 	// the client closes a connection once both plans are through; the next
 	// Dial/Accept then yields the next connection of the session
